@@ -144,6 +144,7 @@ void conn_run(const Plan *p, const CredSet *cs, HonestOut *out,
 	void (*pre_run)(Endpoint *, Endpoint *))
 {
 	memset(out, 0, sizeof(*out));
+	arena_begin();
 	sim_apply_plan(p);
 	net_reset();
 	mon_reset();
@@ -201,4 +202,5 @@ void conn_run(const Plan *p, const CredSet *cs, HonestOut *out,
 	}
 	ep_free(cl);
 	ep_free(sv);
+	arena_end();
 }
